@@ -19,11 +19,14 @@
    be the model's; with bflag = 1 (no Flush in the history) batch by batch.
    exact = 0 (several goroutines): per producer (name prefix "p<d>.") the
    sequence must be the model's, timestamps excluded.
+   exact = 2 (several goroutines reporting unique values through SHARED
+   handles): the multiset of emitted metrics must be the model's (both sides
+   sorted by name, kind and value), timestamps excluded.
    Internal metrics (name prefix "tally.internal.") are left out of the
    comparison but must decode.  Tags are compared sorted.
    Result: 0 agree; 1 bad case; 2 a datagram does not decode as one message;
    3 sequence ids; 4 common tags; 5 emitted sequence (exact); 6 a producer's
-   sequence; 7 clock hypotheses of C13_timestamp_bracket violated by the
+   sequence (6) or the multiset for shared handles (10); 7 clock hypotheses of C13_timestamp_bracket violated by the
    observed timestamps; 8 destinations differ; 9 batch boundaries. *)
 From Coq Require Import ZArith List Bool Arith Uint63.
 From Tally Require Import Base.Obs Base.Search Gen.Params Model.Varint Model.Thrift Model.Buckets Model.M3Pipe.
@@ -224,6 +227,20 @@ Definition strip_ts (m : metric) : metric := set_ts 0 m.
 
 Fixpoint seq_nat (n : nat) : list nat := match n with O => [] | S m => seq_nat m ++ [m] end.
 
+(* a total preorder on metrics by (name, kind, count, gauge, timer), for the multiset comparison *)
+Definition metric_leb (a b : metric) : bool :=
+  if bytes_ltb (mname a) (mname b) then true else if bytes_ltb (mname b) (mname a) then false
+  else if mtype (mval a) <? mtype (mval b) then true else if mtype (mval b) <? mtype (mval a) then false
+  else if mcount (mval a) <? mcount (mval b) then true else if mcount (mval b) <? mcount (mval a) then false
+  else if mgauge (mval a) <? mgauge (mval b) then true else if mgauge (mval b) <? mgauge (mval a) then false
+  else mtimer (mval a) <=? mtimer (mval b).
+Fixpoint minsert (x : metric) (l : list metric) : list metric :=
+  match l with
+  | [] => [x]
+  | y :: r => if metric_leb x y then x :: y :: r else y :: minsert x r
+  end.
+Definition msort (l : list metric) : list metric := fold_left (fun acc x => minsert x acc) l [].
+
 Definition check (c : gcase) : Z :=
   let observed := map devf (gobs c) in
   match gparams c, map devf (gin c) with
@@ -254,6 +271,8 @@ Definition check (c : gcase) : Z :=
                           negb (list_eqb (list_eqb (metric_eqb true)) (map (map snd) model)
                                          (map (fun sb => bmetrics (snd sb)) obs)) then 9
                   else 0
+                else if exact =? 2 then
+                  if list_eqb (metric_eqb false) (msort (map snd mm)) (msort om) then 0 else 10
                 else
                   if forallb (fun p =>
                        list_eqb (metric_eqb false)
